@@ -321,7 +321,13 @@ static unsigned long range_fill (Elem *first, unsigned long n, const Elem *val)
   Elem *last = first + n;
   __CPROVER_assert (__CPROVER_w_ok (first, n << ESZ_LOG2), "[C03,C12,C13] fill writes outside the elements' storage");
   req_storage_r (val);
-#define RF_LIVE(i) REQ_LIVE_RANGE1 (i, first, last) __CPROVER_assert (!(val == WP[i] && RAW (i)), "[C03] fill reads a value from storage that holds no live element");
+#ifdef ELEM_TRIVIAL
+/* trivially copyable (implicit-lifetime) element type: assigning into raw storage starts the lifetime */
+#define RF_DEST_LIVE(i)
+#else
+#define RF_DEST_LIVE(i) REQ_LIVE_RANGE1 (i, first, last)
+#endif
+#define RF_LIVE(i) RF_DEST_LIVE (i) __CPROVER_assert (!(val == WP[i] && RAW (i)), "[C03] fill reads a value from storage that holds no live element");
   FORALLW (RF_LIVE)
   if (n != 0) used_kinds |= K_ASSIGN_COPY;
   _Bool threw; unsigned long done = pick_done (n, ASSIGN_COPY_MAY_THROW, &threw);
@@ -461,3 +467,32 @@ void env_op_call__pG_out (struct Gen *g, Elem *out)
 
 Elem *env_fill_n__pE_uc_pcE (Elem *first, unsigned char n, const Elem *val) { return env_fill_n__pE_ul_pcE (first, n, val); }
 Elem *env_copy_n__pcE_uc_pE (const Elem *first, unsigned char n, Elem *d) { return env_copy_n__pcE_ul_pE (first, n, d); }
+
+/* ---- byte copies (trivially copyable element types only): the destination cells become copies of the source cells,
+   whatever they held before (implicit-lifetime types); the frame is the byte ranges themselves (C13) ---------------------- */
+static void bytes_copy (void *dst, const void *src, unsigned long nbytes, int may_overlap)
+{
+  __CPROVER_assert (ALIGNED (nbytes), "[C13] byte copy of a fraction of an element");
+  if (nbytes == 0) return;
+  __CPROVER_assert (__CPROVER_r_ok (src, nbytes), "[C03,C13] byte copy reads outside the source elements' storage");
+  __CPROVER_assert (__CPROVER_w_ok (dst, nbytes), "[C03,C12,C13] byte copy writes outside the destination elements' storage");
+  __CPROVER_assert (may_overlap || !SAMEOBJ (dst, src) || OFF (dst) + nbytes <= OFF (src) || OFF (src) + nbytes <= OFF (dst), "[C13] memcpy of overlapping ranges");
+  used_kinds |= K_BYTES;
+  const Elem *s = (const Elem *) src; Elem *d = (Elem *) dst;
+  const Elem *s_end = (const Elem *) ((const char *) src + nbytes); Elem *d_end = (Elem *) ((char *) dst + nbytes);
+#define BC_LIVE(i) __CPROVER_assert (!(IN_PTRS (WP[i], s, s_end) && RAW (i)), "[C03] byte copy reads storage that holds no live element");
+  FORALLW (BC_LIVE)
+  int o0 = WS[0], o1 = WS[1], o2 = WS[2];
+#define BC_SRC(j, i) (SAMEOBJ (WP[j], s) && OFF (WP[j]) >= OFF (s) && OFF (WP[j]) - OFF (s) == OFF (WP[i]) - OFF (d))
+#define BC_NEW(i) if (IN_PTRS (WP[i], d, d_end)) { int v = nondet_value (); if (BC_SRC (0, i)) v = o0; if (BC_SRC (1, i)) v = o1; if (BC_SRC (2, i)) v = o2; WS[i] = v; }
+  FORALLW (BC_NEW)
+}
+void *env_memcpy__pv_pcv_ul (void *dst, const void *src, unsigned long nbytes) { bytes_copy (dst, src, nbytes, 0); return dst; }
+void *env_memmove__pv_pcv_ul (void *dst, const void *src, unsigned long nbytes) { bytes_copy (dst, src, nbytes, 1); return dst; }
+/* the header's empty destroy overloads for trivially destructible types still end the elements' lifetimes (r15b) */
+void env_elem_end_lifetime (Elem *p) { FORALLW (REQ_LIVE_P1) FORALLW (SETDEAD1) }
+void env_elem_end_lifetime_range (Elem *first, Elem *last)
+{
+#define EL_RANGE(i) if (IN_PTRS (WP[i], first, last)) { __CPROVER_assert (LIVE (i), "[C03] destroys storage that holds no live element"); WS[i] = S_RAW; }
+  FORALLW (EL_RANGE)
+}
